@@ -883,8 +883,13 @@ impl World {
             }
             return None;
         }
-        if my_turn && self.cfg.policy == 3 && !self.cfg.long_then_mate && self.rng.chance(1, 10) {
-            if let Some(t) = self.plan_tour(pos) {
+        // at the very start of a game a tour is likely: it brings the START position back (whose first occurrence
+        // may carry state - en-passant possibility, rights - that its recurrences lack or share)
+        let at_start = self.exec.srv.model.as_ref().map_or(false, |g| g.history.len() <= 1);
+        let den = if at_start { 2 } else { 12 };
+        if my_turn && self.cfg.policy == 3 && !self.cfg.long_then_mate && self.rng.chance(1, den) {
+            let plan = if at_start && self.rng.chance(2, 3) { self.plan_out_and_back(pos) } else { self.plan_tour(pos) };
+            if let Some(t) = plan {
                 self.tour = t;
                 let (k, m) = self.tour.pop().unwrap();
                 self.tour_prev = Some(k);
@@ -1065,6 +1070,42 @@ impl World {
             i += 1;
         }
         None
+    }
+
+    /// The shortest way back: each side makes a reversible move and takes it back, two or three times over.
+    fn plan_out_and_back(&mut self, pos: &Pos) -> Option<Vec<(Vec<u8>, Mv)>> {
+        let quiet = |p: &Pos| -> Vec<Mv> {
+            p.legal_moves()
+                .into_iter()
+                .filter(|m| !matches!(p.sq[m.from as usize], Some((Kind::P, _))) && !p.is_capture(*m) && !p.is_castle(*m) && p.make(*m).castle == p.castle)
+                .collect()
+        };
+        let mut all = vec![];
+        let mut p = pos.clone();
+        let rounds = 2 + self.rng.below(2);
+        let q1 = quiet(&p);
+        if q1.is_empty() {
+            return None;
+        }
+        let m1 = *self.rng.pick(&q1);
+        let q2 = quiet(&p.make(m1));
+        if q2.is_empty() {
+            return None;
+        }
+        let m2 = *self.rng.pick(&q2);
+        for _ in 0..rounds {
+            for m in [m1, m2, Mv::new(m1.to, m1.from, None), Mv::new(m2.to, m2.from, None)] {
+                if !p.is_legal(m) || p.is_capture(m) {
+                    return None;
+                }
+                all.push((p.key_beside(), m));
+                p = p.make(m);
+            }
+        }
+        self.exec.stats.cnt("reach.tour_planned");
+        self.exec.stats.cnt("reach.tour_out_and_back");
+        all.reverse();
+        Some(all)
     }
 
     fn plan_tour(&mut self, pos: &Pos) -> Option<Vec<(Vec<u8>, Mv)>> {
